@@ -33,7 +33,7 @@ class Shadow:
         prog.reset_inputs()
         self.snap = dict(prog.counters)
         self.caching = [n.sid for n in prog.nodes if n.caching]
-        self.counted = [n.sid for n in prog.nodes if n.kind in ("calc", "dist")]
+        self.counted = [n.sid for n in prog.nodes if n.kind in ("calc", "dist") and not n.role.startswith("_model")]
 
     # ------------------------------------------------------------ helpers
     def _evals(self):
